@@ -1241,6 +1241,10 @@ class Interp(object):
                 self.run(s.body, env)
             except (Brk, Cont):
                 pass
+            except PyExc as e:
+                if isinstance(e.val, Obj):
+                    e.val.f['_in_abstracted_loop'] = True      # raised for SOME element of the unknown iterable
+                raise
             for nm in self.assigned_names(s.body) | self.mutated_names(s.body):
                 if nm in env:
                     env[nm] = self.havoc_value(env[nm], 'havoc in for-loop')
